@@ -31,7 +31,8 @@ def with_values(seq):
         elif op[0] == "setitem":
             out.append(["setitem", op[1], op[2], v])
         elif op[0] == "setval":
-            out.append(["setval", op[1], v])
+            # every third one a plain value that is not a str / int / float (they all go to the item's VALUE, none is an item)
+            out.append(["setval", op[1], v if c % 3 else TYPED_KEYS[(c // 3) % len(TYPED_KEYS)]])
         elif op[0] == "get":
             out.append(["get", op[1], v, op[2]])
         elif op[0] == "setattr":
@@ -39,6 +40,22 @@ def with_values(seq):
         else:
             out.append(list(op))
     return out
+
+
+TYPED_KEYS = ["@none", "@npint", "@npf32", "@list", "@tuple", "@bytes", "@bool"]
+
+
+def typed_value(v):
+    """the value a `setval` op assigns: the tag itself, or the object a typed tag stands for"""
+    if not (isinstance(v, str) and v.startswith("@")):
+        return v
+    import numpy as np
+    return {"@none": None, "@npint": np.int64(7), "@npf32": np.float32(1.5), "@list": [1, 2], "@tuple": (1, 2), "@bytes": b"x", "@bool": True}[v]
+
+
+def model_seq(seq):
+    """the sequence as the model sees it: a typed value is the text str() gives for it (what the dump compares)"""
+    return [[op[0], op[1], str(typed_value(op[2]))] if op[0] == "setval" else op for op in seq]
 
 
 def dump(sec):
@@ -74,7 +91,7 @@ def apply_real(sec, op):
         elif op[0] == "setitem":
             sec[op[1]] = HeaderItem(op[2], value=op[3])
         elif op[0] == "setval":
-            sec[op[1]] = op[2]
+            sec[op[1]] = typed_value(op[2])
         elif op[0] == "get":
             it = sec.get(op[1], default=op[2], add=op[3])
             return [it.original_mnemonic, it.mnemonic, str(it.value)]
@@ -116,7 +133,7 @@ def run_real(seq, tr, probes):
 
 
 def request(seq, tr, probes):
-    return {"op": "sec", "tr": tr, "ops": seq, "probes": probes}
+    return {"op": "sec", "tr": tr, "ops": model_seq(seq), "probes": probes}
 
 
 def sequences(run, quick_len, thorough_len, n_random_quick, n_random_thorough, maxlen=9):
